@@ -16,6 +16,7 @@ BATCH = 150
 EXT = {"python": "py", "javascript": "js", "java": "java", "c": "c", "php": "php", "go": "go"}
 
 
+FULL_C_LANG = "javascript"
 TESTED = {"if", "if-else", "while", "while-else", "cfor", "cfor-noupd", "dowhile"}
 CLASS_OPS = ("class_decl", "interface_decl", "record_decl", "enum_decl", "struct_decl")
 
@@ -225,17 +226,19 @@ def make_batches(quick):
                 continue
             if lang != "python" and not quick_filter_c(lang, feats):
                 continue
-            if lang != "python" and quick and nc == 2 and not (
-                    feats & skel.C_ONLY and feats & {"break", "continue", "return"}
+            pair = (feats & skel.C_ONLY and feats & {"break", "continue", "return"}
                     and feats <= skel.C_ONLY | {"break", "continue", "return", "if", "while"}
-                    and ("switch" not in feats or "continue" in feats)):
-                continue        # quick: C-family languages get all 1-compound skeletons and the loop/switch x jump pairs
+                    and ("switch" not in feats or "continue" in feats))
+            if lang != "python" and nc == 2 and not pair and (quick or lang != FULL_C_LANG):
+                continue        # C-family languages get all 1-compound skeletons and the loop/switch x jump pairs; thorough adds
+                                # every 2-compound skeleton for one of them (the CFG builder is shared, the frontends differ in
+                                # how they lower loops / switch / try, which the 1-compound skeletons and the pairs exercise)
             # 0/1-compound skeletons also as parameterless methods; skeletons with a test also with every test rendered as a
             # comparison, whose value is computed by statements of its own before the test (quick: 0/1-compound only)
             variants = [(True, False)] if nc > 1 else [(True, False), (False, False)]
             if lang == "go":
                 variants = [(True, False)]          # (no parameterless rendering for Go)
-            if feats & TESTED and (nc <= 1 or not quick):
+            if feats & TESTED and (nc <= 1 or (not quick and pair)):
                 variants.append((True, True))
             for params, cmp in variants:
                 name = f"entry_{i}"
